@@ -388,11 +388,27 @@ static int cmd_replay(const char *file) {
   const Mode *m = find_mode(p.mode);
   if (!m) { fprintf(stderr, "unknown mode %s\n", p.mode.c_str()); return 2; }
   g_in_replay = true;
+  bool want_trace = getenv("LSIM_TRACE") != nullptr;
+  if (want_trace) sim::trace_enable(true);
   size_t dot = p.expect.find('.');
   g_cur_prop = dot == string::npos ? "" : p.expect.substr(0, dot);
   g_cur_plan_text = text;
   RunOut out;
   m->exec(p, &out);
+  if (want_trace) {
+    string tf = string(file) + ".trace";
+    FILE *t = fopen(tf.c_str(), "w");
+    if (t) {
+      static const char *kn[] = {"?", "mutex_lock", "mutex_unlock", "cond_wait", "cond_signal", "cond_broadcast", "create", "exit", "join", "file_call", "atomic", "sleep", "api"};
+      fprintf(t, "# schedule and fault trace of %s\n# outcome: %s\n", file, out.viol.empty() ? "no violation" : (out.viol[0].prop + "." + out.viol[0].cls + ": " + out.viol[0].detail).c_str());
+      fprintf(t, "# context switches: step kind from->to  (negative kind: the running thread blocked: -1 mutex, -2 cond, -3 join)\n");
+      for (auto &sw : sim::trace()) fprintf(t, "switch %llu %s t%d->t%d\n", (unsigned long long)sw.step, sw.kind > 0 && sw.kind < 13 ? kn[sw.kind] : (sw.kind == -1 ? "blocked_mutex" : sw.kind == -2 ? "blocked_cond" : sw.kind == -3 ? "blocked_join" : "blocked"), sw.from, sw.to);
+      fprintf(t, "# injected faults that fired: call class errno path step tid op\n");
+      for (auto &kv : out.probes) if (kv.first.compare(0, 6, "fault:") == 0 || kv.first.compare(0, 6, "crash:") == 0 || kv.first.compare(0, 7, "damage:") == 0) fprintf(t, "fault %s x%llu\n", kv.first.c_str(), (unsigned long long)kv.second);
+      fclose(t);
+      printf("TRACE %s (%zu switches)\n", tf.c_str(), sim::trace().size());
+    }
+  }
   if (out.viol.empty() && p.params.count("worker_seq")) {
     // replay the whole sequence of runs the worker had executed in its process up to the failing one
     std::map<string, string> kv;
